@@ -204,6 +204,50 @@ theorem evsigFam_laws : Laws evsigFam where
     subst this
     exact ⟨_, _, evsigDestroy_empty h, rfl, rfl, rfl⟩
 
+/-- socket event-loop pipe (one `pipe()` = two descriptors) -/
+def evpipeFam : Family Two Unit Empty where
+  init f _ h := evpipeInit f h
+  op _ _ k _ := nomatch k
+  destroy := evpipeDestroy
+  ownM := fun _ => 0
+  ownF := Two.owned
+  wf o := o = { a := .own, b := .own }
+  dead o := o = {}
+
+theorem evpipeFam_laws : Laws evpipeFam where
+  init_ok f _ h := init_law (evpipeInit_contract f h) rfl rfl rfl rfl
+  op_ok _ _ k := nomatch k
+  destroy_live s h hw := by
+    have : s = { a := .own, b := .own } := hw
+    subst this
+    exact ⟨_, _, evpipeDestroy_built h, by simp [evpipeFam], by simp [evpipeFam, Two.owned, Cell.owned], rfl⟩
+  destroy_dead s h hd := by
+    have : s = {} := hd
+    subst this
+    exact ⟨_, _, evpipeDestroy_empty h, rfl, rfl, rfl⟩
+
+/-- `muggle_socket_create` / `muggle_socket_close` -/
+def sockFam : Family One Unit Empty where
+  init f _ h := sockCreate f h
+  op _ _ k _ := nomatch k
+  destroy := sockClose
+  ownM := fun _ => 0
+  ownF := One.owned
+  wf o := o = { p := .own }
+  dead o := o = {}
+
+theorem sockFam_laws : Laws sockFam where
+  init_ok f _ h := init_law (sockCreate_contract f h) rfl rfl rfl rfl
+  op_ok _ _ k := nomatch k
+  destroy_live s h hw := by
+    have : s = { p := .own } := hw
+    subst this
+    exact ⟨_, _, sockClose_built h, by simp [sockFam], by simp [sockFam, One.owned, Cell.owned], rfl⟩
+  destroy_dead s h hd := by
+    have : s = {} := hd
+    subst this
+    exact ⟨_, _, sockClose_empty h, rfl, rfl, rfl⟩
+
 /-- ma_ring thread context: init / cleanup of the calling thread -/
 def maRingFam : Family MaRing Unit Empty where
   init f _ h := maRingInit f {} h
